@@ -12,7 +12,7 @@ use bytes::{Bytes, BytesMut};
 use core::mem;
 use derive_builder::Builder;
 
-#[derive(Builder)]
+#[derive(Builder, Clone)]
 #[builder(build_fn(error = "CodecError", validate = "Self::validate"))]
 pub(crate) struct PublishRx {
     #[builder(default)]
@@ -32,8 +32,10 @@ pub(crate) struct PublishRx {
     pub(crate) topic_alias: Option<TopicAlias>,
     #[builder(setter(strip_option), default)]
     pub(crate) message_expiry_interval: Option<MessageExpiryInterval>,
-    #[builder(setter(strip_option), default)]
-    pub(crate) subscription_identifier: Option<SubscriptionIdentifier>,
+    // Multiple Subscription Identifiers are included if the publication
+    // is the result of a match to more than one subscription.
+    #[builder(setter(custom), default)]
+    pub(crate) subscription_identifier: Vec<SubscriptionIdentifier>,
     #[builder(setter(strip_option), default)]
     pub(crate) correlation_data: Option<CorrelationData>,
     #[builder(setter(strip_option), default)]
@@ -68,6 +70,12 @@ impl PublishRxBuilder {
                 self.user_property.as_mut().unwrap().push(value);
             }
         }
+    }
+
+    fn subscription_identifier(&mut self, value: SubscriptionIdentifier) {
+        self.subscription_identifier
+            .get_or_insert_with(Vec::new)
+            .push(value);
     }
 }
 
